@@ -308,7 +308,11 @@ impl<C: Config> InputSession<C> {
             crate::verif_pause!("in.set.g.locked", Some(&query_id));
 
             let Some((write_buffer, _guard)) = transaction.as_mut() else {
-                panic!("InputSession transaction has already been committed");
+                // Only reachable when this call's future was dropped and this
+                // block went on as a detached task that was scheduled after
+                // the session had been committed: the write of a dropped call
+                // is abandoned.
+                return set_input_result;
             };
 
             snapshot
@@ -383,7 +387,11 @@ impl<C: Config> InputSession<C> {
             let mut transaction = transaction.write().await;
 
             let Some((write_buffer, _guard)) = transaction.as_mut() else {
-                panic!("InputSession transaction has already been committed");
+                // Only reachable when this call's future was dropped and this
+                // block went on as a detached task that was scheduled after
+                // the session had been committed: the write of a dropped call
+                // is abandoned.
+                return set_input_result;
             };
 
             snapshot
@@ -528,7 +536,9 @@ impl<C: Config> InputSession<C> {
             crate::verif_pause!("in.ref.g.locked", None);
 
             let Some((transaction, _guard)) = transaction.as_mut() else {
-                panic!("InputSession transaction has already been committed");
+                // see `set_input`: a dropped `refresh` whose continuation
+                // runs after the commit is abandoned
+                return;
             };
 
             while let Some(res) = join_set.join_next().await {
